@@ -47,7 +47,8 @@ impl<T: RowPrinter> RecordPrinter for RecordFromRow<T> {
     }
 }
 
-struct PrintAggregateAsRows<T>(T);
+/// The row printer and, on a terminal, the terminal's width (for the placeholder line).
+struct PrintAggregateAsRows<T>(T, Option<usize>);
 
 pub(crate) trait RowPrinter {
     fn print_row(
@@ -61,8 +62,14 @@ pub(crate) trait RowPrinter {
 
 impl<T: RowPrinter> AggregatePrinter for PrintAggregateAsRows<T> {
     fn print(&mut self, _row: &Aggregate, _display_config: &DisplayConfig) -> String {
-        // a complete line: the renderer's redraw erases whole lines, counted by their newlines
-        "data will be output once the computation is complete...\n".to_string()
+        // a complete line that fits the terminal: the renderer's redraw erases whole lines,
+        // counted by their newlines, so the placeholder must not wrap
+        let text = "data will be output once the computation is complete...";
+        let line: String = match self.1 {
+            Some(width) => text.chars().take(width).collect(),
+            None => text.to_string(),
+        };
+        line + "\n"
     }
 
     fn final_print(&mut self, row: &Aggregate, display_config: &DisplayConfig) -> String {
@@ -126,11 +133,16 @@ pub fn agg_printer(
     render_config: RenderConfig,
     terminal_config: TerminalConfig,
 ) -> Result<Box<dyn AggregatePrinter + Send>, Error> {
+    let width = terminal_config
+        .size
+        .as_ref()
+        .map(|size| size.width as usize);
     match mode {
-        OutputMode::Logfmt => Ok(Box::new(PrintAggregateAsRows(LogFmtPrinter))),
-        OutputMode::Format(format_str) => Ok(Box::new(PrintAggregateAsRows(FormatPrinter::new(
-            format_str.to_owned(),
-        )?))),
+        OutputMode::Logfmt => Ok(Box::new(PrintAggregateAsRows(LogFmtPrinter, width))),
+        OutputMode::Format(format_str) => Ok(Box::new(PrintAggregateAsRows(
+            FormatPrinter::new(format_str.to_owned())?,
+            width,
+        ))),
         OutputMode::Json => Ok(Box::new(JsonPrinter {})),
         OutputMode::Legacy => Ok(Box::new(LegacyPrinter::new(render_config, terminal_config))),
     }
